@@ -32,7 +32,7 @@ Failed ==
      CASE n = "LatestWins" -> ~(LatestWins(ODest, dest0, srcs) /\ O.strays = <<>>)
        [] n = "OthersUntouched" -> ~OthersUntouched(ODest, dest0, srcs)
        [] n = "Accounting" -> O.totals /\ ~Accounting(srcs, Rng(O.copied), Rng(O.notcopied), O.failed, O.seen)
-       [] n = "ExitZero" -> O.exit # 0}
+       [] n = "ExitZero" -> O.exit # 0}      \* (124 = cut off by the harness: the script did not end)
 Drift ==
   IF Len(T.order) # Cardinality(srcs) THEN "order"
   ELSE IF ODest # dest THEN "dest"
